@@ -10,8 +10,8 @@ package main
 
 import (
 	"encoding/json"
-	"fmt"
 	"reflect"
+	"strings"
 
 	"github.com/antonmedv/expr"
 )
@@ -21,9 +21,25 @@ type OpEntry struct {
 	Fn string `json:"fn"`
 }
 
-type OpExpr struct {
+type OpOcc struct {
 	Src string `json:"src"`
 	Fn  string `json:"fn"`
+}
+
+// OpExpr: one occurrence, or several side by side in an array literal.
+type OpExpr struct {
+	Occs []OpOcc `json:"occs"`
+}
+
+func (x OpExpr) Src() string {
+	if len(x.Occs) == 1 {
+		return x.Occs[0].Src
+	}
+	parts := make([]string, len(x.Occs))
+	for i, o := range x.Occs {
+		parts[i] = o.Src
+	}
+	return "[" + strings.Join(parts, ", ") + "]"
 }
 
 type OpTableCase struct {
@@ -77,66 +93,84 @@ func (r *replayer) opTableCase(c OpTableCase) {
 				mode += ":grouped"
 			}
 			for _, x := range c.Exprs {
-				prog, cg := CompileMode(x.Src, m, ops...)
+				src := x.Src()
+				prog, cg := CompileMode(src, m, ops...)
 				r.sum.Executions++
 				if !c.Valid {
 					if cg == nil {
-						r.fail(Failure{Why: "bad-operator-mapping-accepted", Src: x.Src, Mode: mode, Tags: []string{string(desc)}})
+						r.fail(Failure{Why: "bad-operator-mapping-accepted", Src: src, Mode: mode, Tags: []string{string(desc)}})
 					} else if cg.Panic != "" || cg.Hang {
 						r.sum.Stats["bad-mapping-panics (C04's subject)"]++
 					}
 					continue
 				}
 				if cg != nil {
-					r.fail(Failure{Why: "valid-operator-mapping-rejected", Src: x.Src, Mode: mode, Got: cg, Tags: []string{string(desc)}})
+					r.fail(Failure{Why: "valid-operator-mapping-rejected", Src: src, Mode: mode, Got: cg, Tags: []string{string(desc)}})
 					continue
 				}
 				r.sum.Programs++
 				lg := &Log{}
 				e := NewEnv(lg)
 				e.I, e.J, e.F, e.G, e.S, e.T = 3, 4, 1.5, 2.25, "a", "b"
-				g := RunMode(x.Src, prog, m, e, lg)
+				g := RunMode(src, prog, m, e, lg)
 				if g.Panic != "" || g.Hang {
 					r.sum.Stats["run panics or hangs (C04's subject)"]++
 					continue
 				}
-				args := opOperands(e, x.Src)
-				if x.Fn == "" {
-					// built-in meaning: what the same source yields without any table
-					if len(g.Calls) != 0 {
-						r.fail(Failure{Why: "unmatched-occurrence-calls-a-function", Src: x.Src, Mode: mode, Got: &g, Tags: []string{string(desc)}})
+				// what every occurrence must do: call the designated function with its operands in order and yield
+				// what it returns, or - reaching none - keep its built-in meaning (its result without any table)
+				var wantCalls []CallRec
+				var wantVals []Val
+				bad := false
+				for _, o := range x.Occs {
+					args := opOperands(e, o.Src)
+					if o.Fn == "" {
+						p0, cg0 := CompileMode(o.Src, m)
+						if cg0 != nil {
+							bad = true
+							break
+						}
+						g0 := RunMode(o.Src, p0, m, e, &Log{})
+						if !g0.Ok {
+							bad = true
+							break
+						}
+						wantVals = append(wantVals, *g0.V)
 						continue
 					}
-					p0, cg0 := CompileMode(x.Src, m)
-					if cg0 != nil {
-						continue
+					var fv reflect.Value
+					if o.Fn == "MAdd" {
+						fv = reflect.ValueOf(*e).MethodByName(o.Fn)
+					} else {
+						fv = reflect.ValueOf(*e).FieldByName(o.Fn)
 					}
-					g0 := RunMode(x.Src, p0, m, e, lg)
-					if g.Ok != g0.Ok || (g.Ok && !reflect.DeepEqual(*g.V, *g0.V)) {
-						r.fail(Failure{Why: "unmatched-occurrence-loses-builtin-meaning", Src: x.Src, Mode: mode, Got: &g, Tags: []string{string(desc)}})
+					in := make([]reflect.Value, 2)
+					for i, a := range args {
+						in[i] = reflect.ValueOf(a)
 					}
+					lg.reset()
+					wantVals = append(wantVals, Abs(fv.Call(in)[0].Interface()))
+					wantCalls = append(wantCalls, CallRec{Fn: o.Fn, Args: []Val{Abs(args[0]), Abs(args[1])}})
+				}
+				if bad {
+					r.sum.Stats["occurrences without a built-in meaning (skipped)"]++
 					continue
 				}
-				if len(g.Calls) != 1 || g.Calls[0].Fn != x.Fn || len(g.Calls[0].Args) != 2 ||
-					!reflect.DeepEqual(g.Calls[0].Args[0], Abs(args[0])) || !reflect.DeepEqual(g.Calls[0].Args[1], Abs(args[1])) {
-					r.fail(Failure{Why: "occurrence-reaches-another-function", Src: x.Src, Mode: mode, Got: &g,
-						Tags: []string{string(desc), "the table designates " + x.Fn + fmt.Sprintf("(%v, %v)", args[0], args[1])}})
+				if !callsEq(g.Calls, wantCalls) {
+					wc, _ := json.Marshal(wantCalls)
+					r.fail(Failure{Why: "occurrence-reaches-another-function", Src: src, Mode: mode, Got: &g,
+						Tags: []string{string(desc), "the table designates the calls " + string(wc)}})
 					continue
 				}
-				// the value is the function's
-				var fv reflect.Value
-				if x.Fn == "MAdd" {
-					fv = reflect.ValueOf(*e).MethodByName(x.Fn)
+				var want Val
+				if len(x.Occs) == 1 {
+					want = wantVals[0]
 				} else {
-					fv = reflect.ValueOf(*e).FieldByName(x.Fn)
+					want = Val{T: "arr", Et: "any", A: wantVals}
 				}
-				in := make([]reflect.Value, 2)
-				for i, a := range args {
-					in[i] = reflect.ValueOf(a)
-				}
-				want := Abs(fv.Call(in)[0].Interface())
-				if !g.Ok || !reflect.DeepEqual(*g.V, want) {
-					r.fail(Failure{Why: "value", Src: x.Src, Mode: mode, Got: &g, Tags: []string{string(desc), "the table designates " + x.Fn}})
+				if !g.Ok || !ObsEq(*g.V, want) {
+					wv, _ := json.Marshal(want)
+					r.fail(Failure{Why: "value", Src: src, Mode: mode, Got: &g, Tags: []string{string(desc), "expected " + string(wv)}})
 				}
 			}
 		}
@@ -147,5 +181,36 @@ func (r *replayer) opTableCase(c OpTableCase) {
 	} else {
 		r.sum.Stats["invalid tables"]++
 	}
+	r.sample(c)
+}
+
+
+// opTableDeterminism: C09 over operator tables.  The same source compiled six times with the same (valid) table,
+// the options built anew each time, yields the same program byte for byte and constant for constant.
+func (r *replayer) opTableDeterminism(c OpTableCase) {
+	if !c.Valid {
+		return
+	}
+	desc, _ := json.Marshal(c.Entries)
+	for _, m := range r.modes {
+		for _, x := range c.Exprs {
+			src := x.Src()
+			first, cg := CompileMode(src, m, tableOptions(c.Entries, false)...)
+			r.sum.Executions++
+			if cg != nil {
+				continue
+			}
+			r.sum.Programs++
+			for k := 0; k < 5; k++ {
+				p, cg2 := CompileMode(src, m, tableOptions(c.Entries, k%2 == 1)...)
+				r.sum.Executions++
+				if cg2 != nil || !sameProgram(first, p) {
+					r.fail(Failure{Why: "recompile-differs", Src: src, Mode: m.String(), Tags: []string{string(desc)}})
+					break
+				}
+			}
+		}
+	}
+	r.sum.Nontrivial++
 	r.sample(c)
 }
